@@ -413,3 +413,12 @@ Proof.
       * intros e. destruct (fst e =? k) eqn:E; [apply Z.eqb_eq in E; simpl; auto|auto].
       * intros e He. destruct (fst e =? k); simpl; auto.
 Qed.
+
+(* join of a non-empty left operand and a relative right operand keeps both operands verbatim and puts
+   exactly one '/' between them unless the left operand already ends in '/' *)
+Lemma join_shape : forall p q, p <> [] -> is_absolute q = false ->
+  join p q = p ++ (if last p 0 =? SLASH then [] else [SLASH]) ++ q.
+Proof.
+  intros p q Hp Hq. unfold join. destruct p as [|c p']; [contradiction|].
+  rewrite Hq. destruct (last (c :: p') 0 =? SLASH); reflexivity.
+Qed.
